@@ -273,6 +273,8 @@ func getIdentifierKeywordType(value string) models.TokenType {
 		}
 	}
 	switch string(upper) {
+	case "RETURNING":
+		return models.TokenTypeReturning
 	case "INSERT":
 		return models.TokenTypeInsert
 	case "UPDATE":
